@@ -18,10 +18,15 @@ int ar[2], ar2[2]; int ar3[3]; chan c, c2; broadcast chan bc; int f1(int q) { re
 typedef S1 S1a; S1a s1a; typedef S1a S1aa; S1aa s1aa; typedef ST STa; STa sta; typedef int[0,3] R3; typedef R3 R3a; R3a j2;
 typedef int A2[2]; typedef A2 A2a; A2a ara; typedef clock CK; typedef CK CKa; CKa xa; meta int mi;
 const ST kst = {1, 2}; const int kar[2] = {1, 2}; const int[0,3] kj = 1; void wri(int &r) { r = 1; } void wrj(int[0,3] &r) { r = 1; } void wrs(ST &r) { r.a = 1; }
+typedef struct { double v; int k; } SD; SD sd; typedef struct { int v; int k; } SI; SI si; typedef struct { bool v; int k; } SB; SB sb;
+typedef struct { int v[2]; int k; } SAI; SAI sai; typedef struct { double v[2]; int k; } SAD; SAD sad; typedef struct { SI in; } NI; NI ni; typedef struct { SD in; } ND; ND nd;
+double dar[2]; bool bar[2]; typedef struct { int k; int v; } SIr; SIr sir;
 const int N4 = 4; int[0,N4] jn; int[0,4] j4; int[0,2+2] jp; int an[N4]; int a4[4]; int ap[2+2]; int[0,N4] arn[2]; int[0,4] ar4[2];
 """
 POOL_Q = ["i", "j", "ci", "bb", "d", "x", "x - y", "s1", "s2", "st", "ar", "c", '"abc"', "i + 1", "d * 2.0", "1", "1.5",
-          "s1a", "s1aa", "sta", "j2", "ara", "xa", "mi", "jn", "j4", "an", "a4", "ap", "arn", "ar4"]
+          "s1a", "s1aa", "sta", "j2", "ara", "xa", "mi", "jn", "j4", "an", "a4", "ap", "arn", "ar4",
+          # records with the same field names and different member types, arrays of different element types
+          "sd", "si", "sb", "sai", "sad", "ni", "nd", "dar", "bar", "sir"]
 POOL_T = POOL_Q + ["s1b", "st2", "su", "ar2", "ar3", "bc", "true", "f1(i)", "fd()", "st.a", "ar[0]", "x + 1", "-i", "!bb",
                    "i < j", "x < 5", "x - y < 3", "bb && x < 5"]
 OPS = ["+", "*", "==", "!=", "&&", "||", "&", "|", "^", "<?", ">?"]
